@@ -18,8 +18,8 @@ def table():
             continue
         m = json.load(open(p))
         files = ", ".join(os.path.basename(f) for f in m.get("files", []))
-        rows.append("| %s | %s | %s | %s | %s | %s | %s |" % (d, m.get("property"), short(m.get("breaks", ""), 260).replace("|", "/"), files, m.get("check_result", "?"),
-                                                          m.get("thorough_result", "—"), short(m.get("how_caught") or m.get("note", ""), 220).replace("|", "/")))
+        rows.append("| %s | %s | %s | %s | %s | %s | %s |" % (d, m.get("property"), short(m.get("breaks", ""), 170).replace("|", "/"), files, m.get("check_result", "?"),
+                                                          m.get("thorough_result", "—"), short(m.get("how_caught") or (m.get("check_output") or "").replace("violated: ", "") or m.get("note", ""), 200).replace("|", "/")))
     return "\n".join(rows)
 
 
